@@ -276,6 +276,66 @@ func main() {
 		})
 	}
 
+	// phases of Flatten: each must end (top level) with opts.Spec.reload(), possibly guarded by a flag or inside its loop
+	isReload := func(st ast.Stmt) bool {
+		es, ok := st.(*ast.ExprStmt)
+		if !ok {
+			return false
+		}
+		c, ok := es.X.(*ast.CallExpr)
+		return ok && calleeName(c) == "reload"
+	}
+	endsWithReload := func(body *ast.BlockStmt) bool {
+		list := body.List
+		if n := len(list); n > 0 {
+			if _, isRet := list[n-1].(*ast.ReturnStmt); isRet {
+				list = list[:n-1]
+			}
+		}
+		if len(list) == 0 {
+			return false
+		}
+		switch last := list[len(list)-1].(type) {
+		case *ast.IfStmt:
+			return len(last.Body.List) > 0 && isReload(last.Body.List[len(last.Body.List)-1])
+		case *ast.ForStmt:
+			return len(last.Body.List) > 0 && isReload(last.Body.List[len(last.Body.List)-1])
+		default:
+			return isReload(last)
+		}
+	}
+	var phasesWithoutReload []string
+	for _, ph := range []string{"expand", "normalizeRef", "removeUnusedShared", "importReferences", "nameInlinedSchemas", "stripOAIGen", "namePointers", "removeUnusedSinglePass"} {
+		fd := root.fn(ph)
+		if fd == nil || !endsWithReload(fd.Body) {
+			phasesWithoutReload = append(phasesWithoutReload, ph)
+		}
+	}
+	// uniqifyName: no map lookup `definitions[candidate]` (every candidate is tested case-insensitively)
+	uniqifyCaseInsensitive := false
+	if fd := root.fn("uniqifyName"); fd != nil && len(fd.Type.Params.List) > 0 && len(fd.Type.Params.List[0].Names) > 0 {
+		defsName := fd.Type.Params.List[0].Names[0].Name
+		uniqifyCaseInsensitive = true
+		usesFold := false
+		ast.Inspect(fd.Body, func(n ast.Node) bool {
+			if ix, ok := n.(*ast.IndexExpr); ok {
+				if id, ok := ix.X.(*ast.Ident); ok && id.Name == defsName {
+					uniqifyCaseInsensitive = false
+				}
+			}
+			if c, ok := n.(*ast.CallExpr); ok && calleeName(c) == "EqualFold" {
+				usesFold = true
+			}
+			return true
+		})
+		uniqifyCaseInsensitive = uniqifyCaseInsensitive && usesFold
+	}
+	ranges, err := mapRanges(*repo)
+	if err != nil {
+		fmt.Fprintln(os.Stderr, "extract: map ranges:", err)
+		os.Exit(1)
+	}
+
 	getterWrites, copyGetters := analyzeEffects(root)
 	var aliasGetters, freshGetters []string
 	for k, v := range copyGetters {
@@ -308,6 +368,9 @@ func main() {
 	fmt.Fprintf(&b, "  getterWrites := %s\n", leanStrList(getterWrites))
 	fmt.Fprintf(&b, "  freshMapGetters := %s\n", leanStrList(freshGetters))
 	fmt.Fprintf(&b, "  aliasMapGetters := %s\n", leanStrList(aliasGetters))
+	fmt.Fprintf(&b, "  phasesWithoutReload := %s\n", leanStrList(phasesWithoutReload))
+	fmt.Fprintf(&b, "  uniqifyCaseInsensitive := %v\n", uniqifyCaseInsensitive)
+	fmt.Fprintf(&b, "  mapRanges := %s\n", leanStrList(ranges))
 	fmt.Fprintf(&b, "  paramsForMethods := %s\n", leanStrList(paramsForMethods))
 	_ = sort.Strings
 
